@@ -281,9 +281,51 @@ def elementwise_image(prog, term, src):
     return elem
 
 
-def f64_image_of(prog, term, src):
-    """term is the element-wise `as f64` image of src (e.g. src.iter().map(|w| *w as f64).collect())"""
+def pushed_image(prog, body, term, src):
+    """term is a Vec that is created empty and filled by one loop over src that pushes one value per item and
+    nothing else: the pushed value as a term over ("elem",); None otherwise."""
+    from ..engines.schemas import subst
+    from ..paths import loop_system
+    from .util import early_exits
+    if term[0] not in ("mut", "phi"):
+        return None
+    root = term[3] if term[0] == "mut" else term[2]
+    if not isinstance(root, tuple) or root[0] == "opaque":
+        return None
+    init = acc_init(prog, body, root)
+    if init not in ("Vec::new", "Vec::with_capacity"):
+        return None
+    muts = [(b, n) for b, n in mutators_of(prog, body, root) if n not in ("Vec::new", "Vec::with_capacity")]
+    loops = [lm for lm in loop_models(prog, body) if lm.kind == "iter" and any(b in lm.blocks for b, _n in muts)]
+    if len(loops) != 1 or any(b not in loops[0].blocks for b, _n in muts):
+        return None
+    lm = loops[0]
+    chain, base, _ = iter_chain(lm.source) if lm.source else ([], None, [])
+    names = [n for n in chain if n not in ("IntoIterator::into_iter", "Iterator::copied", "Iterator::cloned")]
+    if base != src or names not in ([], ["[]::iter"], ["Vec::iter"]):
+        return None
+    if early_exits(body, lm):
+        return None
+    val = None
+    for tr in loop_system(prog, body, lm, [], [root]):
+        if tr.kind != "back":
+            continue
+        evs = [(n, a[1]) for (_b, n, a, _r) in tr.events]
+        if len(evs) != 1 or evs[0][0] != "Vec::push":
+            return None
+        v = subst(evs[0][1], {lm.item: ("elem",)})
+        if val is not None and v != val:
+            return None
+        val = v
+    return val
+
+
+def f64_image_of(prog, term, src, body=None):
+    """term is the element-wise `as f64` image of src (e.g. src.iter().map(|w| *w as f64).collect(), or a Vec filled
+    by a loop that pushes `w as f64` for every w of src)"""
     e = elementwise_image(prog, term, src)
+    if e is None and body is not None:
+        e = pushed_image(prog, body, term, src)
     return e is not None and e[0] == "cast" and e[1] == "IntToFloat" and e[2] == ("elem",)
 
 
